@@ -2,6 +2,7 @@
 //! Assembles `serde_json::Value`s by hand; uses no serde derive of scale-info.
 
 use crate::refscale::{PType, PRIMS};
+use crate::lit;
 use scale_info::{
     form::PortableForm, Field, Path, PortableRegistry, PortableType, Type, TypeDef, TypeDefArray,
     TypeDefBitSequence, TypeDefCompact, TypeDefComposite, TypeDefSequence, TypeDefTuple,
@@ -139,7 +140,7 @@ fn read_fields(v: Option<&Value>) -> RR<Vec<Field<PortableForm>>> {
             .iter()
             .map(|f| {
                 let o = f.as_object().ok_or("field not object")?;
-                Ok(Field::new(
+                Ok(lit::field(
                     get_opt_str(o.get("name"))?,
                     get_u32(o.get("type").ok_or("field.type")?)?.into(),
                     get_opt_str(o.get("typeName"))?,
@@ -153,7 +154,7 @@ fn read_fields(v: Option<&Value>) -> RR<Vec<Field<PortableForm>>> {
 
 pub fn read_ty(v: &Value) -> RR<PType> {
     let o = v.as_object().ok_or("type not object")?;
-    let path = Path::from_segments_unchecked(get_strs(o.get("path"))?);
+    let path = path_of(get_strs(o.get("path"))?);
     let params = match o.get("params") {
         None => vec![],
         Some(Value::Array(a)) => a
@@ -164,7 +165,7 @@ pub fn read_ty(v: &Value) -> RR<PType> {
                     None | Some(Value::Null) => None,
                     Some(x) => Some(get_u32(x)?.into()),
                 };
-                Ok(TypeParameter::<PortableForm>::new_portable(name, ty))
+                Ok(lit::param(name, ty))
             })
             .collect::<RR<Vec<_>>>()?,
         _ => return Err("params".into()),
@@ -176,14 +177,14 @@ pub fn read_ty(v: &Value) -> RR<PType> {
     let (tag, body) = d.iter().next().unwrap();
     let tid = |b: &Value| -> RR<u32> { get_u32(b.get("type").ok_or("type")?) };
     let def: TypeDef<PortableForm> = match tag.as_str() {
-        "composite" => TypeDefComposite::new(read_fields(body.get("fields"))?).into(),
+        "composite" => lit::composite(read_fields(body.get("fields"))?).into(),
         "variant" => {
             let vs = match body.get("variants") {
                 None => vec![],
                 Some(Value::Array(a)) => a
                     .iter()
                     .map(|x| {
-                        Ok(Variant::new(
+                        Ok(lit::variant(
                             x.get("name").and_then(|n| n.as_str()).ok_or("variant.name")?.to_string(),
                             read_fields(x.get("fields"))?,
                             u8::try_from(get_u32(x.get("index").ok_or("index")?)?).map_err(|_| "index")?,
@@ -193,11 +194,11 @@ pub fn read_ty(v: &Value) -> RR<PType> {
                     .collect::<RR<Vec<_>>>()?,
                 _ => return Err("variants".into()),
             };
-            TypeDefVariant::new(vs).into()
+            lit::variants(vs).into()
         }
-        "sequence" => TypeDefSequence::new(tid(body)?.into()).into(),
-        "array" => TypeDefArray::new(get_u32(body.get("len").ok_or("len")?)?, tid(body)?.into()).into(),
-        "tuple" => TypeDefTuple::new_portable(
+        "sequence" => lit::sequence(tid(body)?.into()).into(),
+        "array" => lit::array(get_u32(body.get("len").ok_or("len")?)?, tid(body)?.into()).into(),
+        "tuple" => lit::tuple(
             body.as_array()
                 .ok_or("tuple")?
                 .iter()
@@ -205,22 +206,16 @@ pub fn read_ty(v: &Value) -> RR<PType> {
                 .collect::<RR<Vec<_>>>()?,
         )
         .into(),
-        "primitive" => PRIMS
-            .iter()
-            .find(|(_, n)| Some(*n) == body.as_str())
-            .ok_or("primitive")?
-            .0
-            .clone()
-            .into(),
-        "compact" => TypeDefCompact::new(tid(body)?.into()).into(),
-        "bitsequence" => TypeDefBitSequence::new_portable(
+        "primitive" => lit::primitive(PRIMS.iter().find(|(_, n)| Some(*n) == body.as_str()).ok_or("primitive")?.0.clone()),
+        "compact" => lit::compact(tid(body)?.into()).into(),
+        "bitsequence" => lit::bits(
             get_u32(body.get("bit_store_type").ok_or("store")?)?.into(),
             get_u32(body.get("bit_order_type").ok_or("order")?)?.into(),
         )
         .into(),
         _ => return Err(format!("unknown def tag {tag}")),
     };
-    Ok(Type::new(path, params, def, get_strs(o.get("docs"))?))
+    Ok(lit::ty(path, params, def, get_strs(o.get("docs"))?))
 }
 
 pub fn read_registry(v: &Value) -> RR<PortableRegistry> {
@@ -228,11 +223,17 @@ pub fn read_registry(v: &Value) -> RR<PortableRegistry> {
     let types = a
         .iter()
         .map(|t| {
-            Ok(PortableType::new(
+            Ok(lit::entry(
                 get_u32(t.get("id").ok_or("id")?)?,
                 read_ty(t.get("type").ok_or("type")?)?,
             ))
         })
         .collect::<RR<Vec<_>>>()?;
     Ok(PortableRegistry { types })
+}
+
+/// a portable path built through the public field (no library constructor touches the segments)
+#[allow(dead_code)]
+fn path_of<I: IntoIterator<Item = String>>(segments: I) -> scale_info::Path<scale_info::form::PortableForm> {
+    scale_info::Path { segments: segments.into_iter().collect() }
 }
